@@ -171,6 +171,7 @@ def c05_programs(rng, tier) -> List[Item]:
     items += equal_hash_items(rng, sizes(tier, 20, 150))
     items += lifted_falsy_items(rng, sizes(tier, 15, 100))
     items += shared_constant_items(rng, sizes(tier, 90, 450))
+    items += shared_argument_items(rng, sizes(tier, 30, 150))
     items += dataset_class_items(rng, sizes(tier, 30, 150))
     return items
 
@@ -263,6 +264,38 @@ def shared_constant_items(rng, n) -> List[Item]:
                 kw["mutate_result"] = True
             P.evaluate(root, o, **kw)
         items.append((P.to_json(), {"position": pos}))
+    return items
+
+
+def shared_argument_items(rng, n) -> List[Item]:
+    """ONE expression object bound to several parameters of a dataset / function application / pipeline step
+    (`f(a=E, b=E)`): each parameter receives a value of its own — a body that edits one argument in place sees the
+    others untouched — exactly as the eager `f(eval(E), eval(E))`"""
+    items = []
+    for i in range(n):
+        P = Prog()
+        ek = i % 5
+        if ek == 0:
+            e = P.value([1, [2]], wrap=True)
+        elif ek == 1:
+            e = P.collection("list", [P.option("A"), P.value(1)])
+        elif ek == 2:
+            e = P.option("S")
+        elif ek == 3:
+            e = P.switch(P.option("K", bare=True), [("x", P.value({"k": [1]}))], P.value([0]))
+        else:
+            e = P.dataset([("a", P.option("A"))], fn_name=P.const_fn(f"mk{i}", [[1], {"q": 2}]), cache=P.new_cache("nocache"))
+        fname = P.free(f"two{i}", mutates="first")
+        ck = (i // 5) % 3
+        if ck == 0:
+            root = P.dataset([("a", e), ("b", e)], fn_name=fname, cache=P.new_cache("nocache"))
+        elif ck == 1:
+            root = P.funapp(P.fnvalue(fname), kw=[("a", e), ("b", e), ("c", e)])
+        else:
+            root = P.apply(P.option("A"), P.partial(P.fnvalue(fname), kw=[("u", e), ("v", e)]))
+        for o in [{"A": 1, "S": {"X": [1]}, "K": "x"}, {"A": 2, "S": {"X": [1]}, "K": "y"}, {"A": 1, "S": {"X": [1]}, "K": "x"}]:
+            P.evaluate(root, o)
+        items.append((P.to_json(), {}))
     return items
 
 
@@ -473,12 +506,89 @@ def section_inner_items(rng, n) -> List[Item]:
     return items
 
 
+def cached_namespace_items(rng, n) -> List[Item]:
+    """a whole namespace used as an evaluatable under a cache (`cached(NS)`, a dataset argument `ns=NS`) whose members
+    fall back to defaults that read OTHER options (a template, a chained Option, a dataset): dictionaries that differ
+    only in such an option give different values; members set in the section, unset, partly set"""
+    items = []
+    for i in range(n):
+        P = Prog()
+        dkind = i % 3
+        if dkind == 0:
+            dflt = P.template("{BASE}/pkg")
+        elif dkind == 1:
+            dflt = P.option("BASE", dflt=P.value("b0"))
+        else:
+            dflt = P.dataset([("b", P.option("BASE"))], cache=P.new_cache("nocache"))
+        members = [("A", P.option("NS.A", dflt=dflt, nsmember=1, style="option")),
+                   ("C", P.option("NS.C", dflt=P.value(0), nsmember=1, style="option"))]
+        if rng.random() < 0.4:
+            sub = P.namespace("NS.SUB", [("D", P.option("NS.SUB.D", dflt=P.option("DEEP", dflt=P.value(1)), nsmember=1, style="option"))],
+                              via="decorator")
+            P.node(sub)["explicit"] = True
+            P.node(sub)["nsmember"] = 1
+            members.append(("SUB", sub))
+        ns = P.namespace("NS", members, via="decorator")
+        root = [lambda: P.cached(ns), lambda: P.dataset([("ns", ns)]), lambda: P.cached(P.collection("list", [ns, P.option("Z", dflt=P.value(0))]))][i % 3]()
+        seq = [{"BASE": 1}, {"BASE": 2}, {"NS": {"A": 5}, "BASE": 1}, {"NS": {"C": 1}, "BASE": 3, "DEEP": 2}, {"BASE": 1},
+               {"NS": {"C": 1}, "BASE": 4, "DEEP": 3}, {"NS": {"A": 5}, "BASE": 9}]
+        pairs, ke = [], []
+        for o in seq:
+            P.op("keys", root, o)
+            P.evaluate(root, o)
+            P.evaluate(root, o, cache_off=True)
+            pairs.append((len(P.ops) - 2, len(P.ops) - 1))
+            ke.append((len(P.ops) - 3, len(P.ops) - 2))
+        items.append((P.to_json(), {"pairs": pairs, "ke": ke, "root": root}))
+    return items
+
+
+def function_slot_items(rng, n) -> List[Item]:
+    """the FUNCTION of an application is itself an expression that reads options (`FunctionApplication(switch(Option(
+    "ALGO"), {...}), x=Option("X"))`, a partial application, an Option default factory chosen by a switch): what the
+    function slot reads is part of keys() — and of the fingerprint — like what the arguments read"""
+    items = []
+    for i in range(n):
+        P = Prog()
+        fa, fb, fd = P.fnvalue(P.free(f"fast{i}")), P.fnvalue(P.free(f"exact{i}")), P.fnvalue(P.free(f"dflt{i}"))
+        shape = i % 4
+        if shape == 0:
+            fexpr = P.switch(P.option("ALGO", bare=True), [("fast", fa), ("exact", fb)], fd if rng.random() < 0.5 else None)
+        elif shape == 1:
+            fexpr = P.case(P.option("ALGO"), [(P.fnvalue("eq", "fast"), fa)], fb)
+        elif shape == 2:
+            fexpr = P.coalesce([P.switch(P.option("ALGO", bare=True), [("fast", fa)]), fb])
+        else:
+            fexpr = P.with_options(P.switch(P.option("ALGO", bare=True), [("fast", fa), ("exact", fb)]), {"ALGO": "exact"}, force=False)
+        kind = (i // 4) % 3
+        if kind == 0:
+            app = P.funapp(fexpr, kw=[("x", P.option("X"))])
+        elif kind == 1:
+            app = P.funapp(fexpr, args=[P.option("X")])
+        else:
+            app = P.apply(P.option("X"), P.partial(fexpr, kw=[("y", P.option("Y", dflt=P.value(0)))]))
+        root = [lambda: app, lambda: P.cached(app), lambda: P.dataset([("r", app)])][i % 3]()
+        seq = [{"ALGO": "fast", "X": 2}, {"ALGO": "exact", "X": 2}, {"ALGO": "fast", "X": 2}, {"X": 2}, {"ALGO": "exact", "X": 3, "Y": 1},
+               {"ALGO": "fast", "X": 3, "Y": 1}]
+        pairs, ke = [], []
+        for o in seq:
+            P.op("keys", root, o)
+            P.evaluate(root, o)
+            P.evaluate(root, o, cache_off=True)
+            pairs.append((len(P.ops) - 2, len(P.ops) - 1))
+            ke.append((len(P.ops) - 3, len(P.ops) - 2))
+        items.append((P.to_json(), {"pairs": pairs, "ke": ke, "root": root}))
+    return items
+
+
 def c01_programs(rng, tier) -> List[Item]:
     items = corpus_items("C01")
     cfg = Cfg(raising=False)
     items += gen_items(rng, cfg, sizes(tier, 250, 4000), hist_cached_vs_uncached)
     items += reused_dict_items(rng, sizes(tier, 24, 120))
     items += section_inner_items(rng, sizes(tier, 24, 120))
+    items += cached_namespace_items(rng, sizes(tier, 18, 90))
+    items += function_slot_items(rng, sizes(tier, 24, 96))
     return items
 
 
@@ -935,6 +1045,8 @@ def c03_programs(rng, tier) -> List[Item]:
     items += gen_items(rng, cfg, sizes(tier, 250, 3000), hist_keys_eval)
     items += map_prefix_items(rng, sizes(tier, 48, 240))
     items += dataset_class_items(rng, sizes(tier, 30, 150))
+    items += cached_namespace_items(rng, sizes(tier, 18, 90))
+    items += function_slot_items(rng, sizes(tier, 24, 96))
     return items
 
 
@@ -1554,6 +1666,34 @@ def dataset_class_items(rng, n) -> List[Item]:
     return items
 
 
+def dispatch_domain_items(rng, n) -> List[Item]:
+    """a dispatch Option that declares a `domain=` which is itself a dataset (or an expression over datasets) that could
+    be evaluated without any option: building the dataset, registering implementations (`register`, overload tables),
+    deriving it and adding effects run no body; the domain's body runs when the dispatch is evaluated"""
+    items = []
+    for i in range(n):
+        P = Prog()
+        P.const_fn(f"allowed{i}", ["x", "y", 1])
+        dom = P.dataset([("m", P.option("M", dflt=P.value(0)))] if i % 2 else [], fn_name=f"allowed{i}",
+                        cache=P.new_cache(rng.choice(["memory", "nocache"])))
+        if i % 3 == 2:
+            dom = P.apply(dom, P.fnvalue("ident"))
+        disp = P.option("K", dom=dom, dflt=P.value("x") if i % 4 == 1 else None)
+        impls = [P.dataset([("a", P.option("A", dflt=P.value(j)))]) for j in range(3)]
+        root = P.dataset([("a", P.option("A", dflt=P.value(9)))], dispatch=disp, table=[("x", impls[0])], abstract=(i % 5 == 4))
+        P.register(root, "y", impls[1])
+        P.register(root, "zz", impls[2])            # (a key outside the domain: legal, just never selected)
+        members = [root]
+        if rng.random() < 0.5:
+            members.append(P.derive(root, {"A": 3}, default=rng.random() < 0.5))
+        P.raw_op(op="add_effect", ds=P.ds_of(root), n=P.fnvalue(P.free(f"eff{i}")))
+        for m in members:
+            for o in [{"K": "x"}, {"K": "y", "A": 1}, {"K": "zz"}, {}, {"K": 1}]:
+                P.evaluate(m, o)
+        items.append((P.to_json(), {}))
+    return items
+
+
 def c06_programs(rng, tier) -> List[Item]:
     items = corpus_items("C06")
     items += c06_namespace_items(rng, sizes(tier, 15, 100))
@@ -1561,6 +1701,7 @@ def c06_programs(rng, tier) -> List[Item]:
     cfg = Cfg(raising=False, catch_unsafe=True)
     items += gen_items(rng, cfg, sizes(tier, 300, 4000), hist_all_ops, ops=("evaluate",))
     items += dataset_class_items(rng, sizes(tier, 40, 200))
+    items += dispatch_domain_items(rng, sizes(tier, 20, 100))
     return items
 
 
@@ -1743,6 +1884,43 @@ def mutating_body_items(rng, n) -> List[Item]:
     return items
 
 
+def all_options_mutation_items(rng, n) -> List[Item]:
+    """`AllOptions` consumed by code that edits what it receives (a body, `AllOptions >> f`, the caller editing the
+    result) — directly, under pre-set / default options of a wrapper or a dataset, through `with_options`: what it hands
+    out is never the caller's dictionary, nor part of a pre-set / default dictionary (dicts inside lists included), with
+    and without templated strings among the values"""
+    items = []
+    VALS = [{"L": [{"a": 1}, {"b": [2]}], "S": {"X": [1]}}, {"L": [[{"deep": 1}]], "A": 1}, {"S": {"U": {"V": [1, {"w": 2}]}}},
+            {"L": [{"a": 1}], "T": "{A}", "A": 5}]
+    for i in range(n):
+        P = Prog()
+        fname = P.free(f"tidy{i}", mutates=True)
+        o = copy.deepcopy(VALS[i % len(VALS)])
+        preset = copy.deepcopy(rng.choice([{"P": [{"k": 1}]}, {"S": {"Y": [{"z": 1}]}}, {"L": [{"p": 0}]}]))
+        shape = (i // len(VALS)) % 5
+        allo = P.all_options()
+        if shape == 0:
+            root = P.apply(allo, P.fnvalue(fname))
+        elif shape == 1:
+            root = P.dataset([("o", allo)], fn_name=fname, cache=P.new_cache("nocache"))
+        elif shape == 2:
+            root = P.with_options(P.apply(allo, P.fnvalue(fname)), preset, force=rng.random() < 0.5)
+        elif shape == 3:
+            root = P.dataset([("o", allo)], fn_name=fname, cache=P.new_cache("nocache"),
+                             **({"options": preset} if rng.random() < 0.5 else {"default_options": preset}))
+        else:
+            d = P.dataset([("o", allo)], fn_name=fname, cache=P.new_cache("nocache"))
+            root = P.derive(d, preset, default=rng.random() < 0.5)
+        checks = []
+        P.evaluate(root, sort_json(o))
+        P.evaluate(root, sort_json(o))
+        checks.append((len(P.ops) - 2, len(P.ops) - 1, "second evaluation after a consumer of AllOptions edited what it received"))
+        P.evaluate(root if shape else allo, sort_json(o), mutate_result=True)
+        P.evaluate(root if shape else allo, sort_json(o))
+        items.append((P.to_json(), {"overlay": checks}))
+    return items
+
+
 def c08_programs(rng, tier) -> List[Item]:
     items = corpus_items("C08")
     items += mutating_body_items(rng, sizes(tier, 40, 300))
@@ -1750,11 +1928,13 @@ def c08_programs(rng, tier) -> List[Item]:
     items += gen_items(rng, cfg, sizes(tier, 250, 3000), hist_overlay)
     items += derived_family_items(rng, sizes(tier, 60, 600))
     items += section_inner_items(rng, sizes(tier, 32, 160))
+    items += all_options_mutation_items(rng, sizes(tier, 20, 100))
+    items += reused_dict_wrapper_items(rng, sizes(tier, 32, 96))
     return items
 
 
 def c08_oracle(prog, meta, impl, model):
-    out = []
+    out = fresh_pairs_oracle(prog, meta, impl)
     for i, j, what in meta.get("overlay", []):
         if i >= len(impl) or j >= len(impl):
             continue
@@ -1813,6 +1993,7 @@ def c09_programs(rng, tier) -> List[Item]:
                 meta["c09"].append({"e": len(P.ops) - 3, "k": len(P.ops) - 2, "x": len(P.ops) - 1, "node": node})
         items.append((P.to_json(), meta))
     items += param_name_items(rng, sizes(tier, 44, 220))
+    items += reused_dict_wrapper_items(rng, sizes(tier, 32, 96))
     return items
 
 
@@ -1855,6 +2036,41 @@ def param_name_items(rng, n) -> List[Item]:
 def _put_flat(o, key, v):
     """a key containing no usable dots is a top-level entry"""
     o[key] = v
+
+
+def reused_dict_wrapper_items(rng, n) -> List[Item]:
+    """a user-built `WithOptions` / `WithDefaultOptions` object that is kept and used again and again with ONE
+    dictionary object the caller edits in place between calls (keys added, changed, deleted): every operation sees the
+    dictionary as it is now — templates and templated options under the wrapper included"""
+    items = []
+    for i in range(n):
+        P = Prog()
+        inner = [lambda: P.template("{A}-{P}"), lambda: P.option("Q"), lambda: P.collection("list", [P.option("A"), P.template("{S.X}!")]),
+                 lambda: P.template("{:p:}/{A}", [("p", P.option("B", dflt=P.value("b")))])][i % 4]()
+        preset = [{"Z": 1}, {"P": "{B}"}, {"S": {"X": "sx"}}, {"A": "pa"}][(i // 4) % 4]
+        root = P.with_options(inner, preset, force=(i % 2 == 0))
+        seq = [{"A": 1, "P": "p", "Q": "{A}", "S": {"X": 1}, "B": 2}, {"A": 2, "P": "{A}", "Q": "{P}", "S": {"X": 1}, "B": 2},
+               {"A": 2, "P": "{B}", "Q": "q", "S": {"X": "{B}"}}, {"A": 3, "Q": "{S.X}", "S": {"X": 4}, "P": 0, "B": 1}, {"P": 1, "Q": 1}]
+        meta = {"c09": [], "t": ""}
+        pairs = []
+        for o in seq:
+            for op in ("keys", "evaluate", "explain", "validate"):
+                P.op(op, root, o, reuse_o=True)
+            for op in ("keys", "evaluate", "explain", "validate"):
+                P.op(op, root, o)            # the same contents in a fresh dictionary object
+                pairs.append((len(P.ops) - 5, len(P.ops) - 1, op))
+        meta["fresh_pairs"] = pairs
+        items.append((P.to_json(), meta))
+    return items
+
+
+def fresh_pairs_oracle(prog, meta, impl):
+    out = []
+    for i, j, op in meta.get("fresh_pairs", []):
+        if i < len(impl) and j < len(impl) and not same_outcome(impl[i], impl[j]):
+            out.append((f"{op}() on a dictionary object the caller edited in place differs from {op}() on a fresh dictionary "
+                        "with the same contents", i, {"options": prog["ops"][i]["o"], "reused": impl[i].get("r"), "fresh": impl[j].get("r")}))
+    return out
 
 
 def ref_template_keys(s: str) -> List[str]:
@@ -1932,7 +2148,7 @@ def _ref_param(nodes, nid, o, reads):
 
 
 def c09_oracle(prog, meta, impl, model):
-    out = []
+    out = fresh_pairs_oracle(prog, meta, impl)
     nodes = {n["id"]: n for n in prog["nodes"]}
     for c in meta.get("c09", []):
         e, k, x = impl[c["e"]], impl[c["k"]], impl[c["x"]]
@@ -2068,6 +2284,43 @@ def dataset_default_items(rng, n) -> List[Item]:
     return items
 
 
+def container_reference_items(rng, n) -> List[Item]:
+    """templates (and string Option defaults) that reference a key whose value is a LIST or a section holding templated
+    strings of its own (`{"FILES": ["{ROOT}/a.csv"]}`), the inner reference present or missing: validate, keys and
+    evaluate agree about the missing key at every depth"""
+    items = []
+    for i in range(n):
+        P = Prog()
+        t = ["{L}", "{S.F}", "{L.0}", "{W}"][i % 4]
+        kind = (i // 4) % 4
+        if kind == 0:
+            root = P.template(t)
+        elif kind == 1:
+            root = P.option("OUT", dflt=P.template(t))
+        elif kind == 2:
+            root = P.dataset([("p", P.template(t))], cache=P.new_cache("nocache"))
+        else:
+            root = P.collection("list", [P.template(t), P.option("B", dflt=P.value(0))])
+        inner = rng.choice(["{ROOT}/a.csv", "x{ROOT}", "{ROOT}"])
+        dicts = []
+        for has_root in (False, True):
+            base: Dict[str, Any] = {"L": [inner, "plain"], "S": {"F": [[inner]]}, "W": [{"path": inner}]}
+            if has_root:
+                base["ROOT"] = "/data"
+            dicts.append(base)
+        dicts.append({"L": ["plain"], "S": {"F": []}, "W": [1]})
+        dicts.append({})
+        agree = []
+        for o in dicts:
+            P.raw_op(op="reset")
+            b = len(P.ops)
+            for op in ("validate", "keys", "explain", "evaluate", "validate", "keys", "evaluate"):
+                P.op(op, root, sort_json(o))
+            agree.append({"v": b, "k": b + 1, "x": b + 2, "e": b + 3, "wv": b + 4, "wk": b + 5, "we": b + 6})
+        items.append((P.to_json(), {"agree": agree, "root": root}))
+    return items
+
+
 def c10_programs(rng, tier) -> List[Item]:
     items = corpus_items("C10")
     items += dataset_default_items(rng, sizes(tier, 30, 200))
@@ -2079,6 +2332,7 @@ def c10_programs(rng, tier) -> List[Item]:
         m["partial_bodies"] = True
     items += its
     items += dataset_class_items(rng, sizes(tier, 30, 150))
+    items += container_reference_items(rng, sizes(tier, 32, 96))
     return items
 
 
@@ -2994,9 +3248,36 @@ def getonly_items(rng, n) -> List[Item]:
     return items
 
 
+def front_cache_items(rng, n) -> List[Item]:
+    """a fault-injecting FRONT over a real MemoryCache (it answers the faults itself — a miss, a claimed entry, a failed
+    read — and passes everything else on), on long-lived `cached(x, backend)` nodes and datasets, with ONE dictionary
+    object that the caller edits in place between calls: every evaluation returns the value of the dictionary as it is"""
+    items = []
+    for i in range(n):
+        P = Prog()
+        while (P._cache + 1) % 3 != 2:
+            P.new_cache("memory")
+        c = P.new_cache("scripted")
+        a = P.option("A")
+        inner = [lambda: P.apply(a, P.fnvalue(P.free(f"g{i}"))), lambda: P.collection("list", [a, P.option("B", dflt=P.value(0))]),
+                 lambda: P.template("{A}!")][i % 3]()
+        root = P.cached(inner, c) if i % 4 != 3 else P.dataset([("v", inner)], cache=c)
+        recs = []
+        seq = [{"A": 1}, {"A": 2}, {"A": 1, "B": 5}, {"A": 3}, {"A": 2}, {"A": 3, "B": 1}]
+        for k, o in enumerate(seq):
+            script = [["behave"], ["lieExists"], ["behave", "failGet"], ["lieExists", "behave"], ["miss"], ["lieExists"]][(k + i) % 6]
+            P.raw_op(op="script", cache=c, faults=script)
+            P.evaluate(root, o, reuse_o=True)
+            P.evaluate(root, o, cache_off=True, reuse_o=True)
+            recs.append((len(P.ops) - 2, len(P.ops) - 1))
+        items.append((P.to_json(), {"faulty": recs}))
+    return items
+
+
 def c17_programs(rng, tier) -> List[Item]:
     items = corpus_items("C17")
     items += getonly_items(rng, sizes(tier, 60, 400))
+    items += front_cache_items(rng, sizes(tier, 24, 120))
     items += c17_exhaustive(tier)
     cfg = Cfg(raising=False, scripted_caches=True, all_options=False)
     items += gen_items(rng, cfg, sizes(tier, 200, 3000), hist_faulty)
